@@ -72,7 +72,8 @@ CONFIG = dict(
                   "NOTIFICATION, a second OPEN) is the harness's; a step ends after 16 quiet scheduler turns; not expressible "
                   "over TCP and therefore only in the other streams: hold-timer expiry, local NOTIFICATIONs, `est`/`attempt` "
                   "while a session may be up, `est` while administratively down, End-of-RIB of a non-IPv4 family the session "
-                  "does not carry"],
+                  "does not carry; socket set-up failures (no ephemeral port) are retried for minutes and the case re-run, a "
+                  "`glue-real` run during which the machine stalled > 0.5 s inside a wait is repeated"],
     modelled_not_verified=["durations: restart / LLGR times are 1 s in the clock streams and never elapse in the others; that the "
                            "negotiated number of seconds is the one used is not observed", "RTC state machine calls inside apply_disconnect / gr_restart_timer_expired",
                            "route ranking and distribution of the resulting NlriChanges (C02/C06/C01)"],
